@@ -4,6 +4,7 @@
 package main
 
 import (
+	"context"
 	"errors"
 	"fmt"
 	"io"
@@ -13,6 +14,7 @@ import (
 	"github.com/go-netty/go-netty/zz_verif/explore"
 	"github.com/go-netty/go-netty/zz_verif/hlib"
 	"github.com/go-netty/go-netty/zz_verif/mock"
+	"github.com/go-netty/go-netty/zz_verif/vcontext"
 	"github.com/go-netty/go-netty/zz_verif/vsched"
 )
 
@@ -43,11 +45,27 @@ func (a *app) HandleInactive(ctx netty.InactiveContext, ex netty.Exception) {
 	ctx.HandleInactive(ex)
 }
 
+// greet is a handshake handler the application puts in FRONT of everything else: the channel only
+// becomes active (for the handlers behind it) once the peer has sent a byte or the connection ended.
+type greet struct {
+	tr            *mock.Transport
+	entered, done bool
+}
+
+func (g *greet) HandleActive(ctx netty.ActiveContext) {
+	g.entered = true
+	var b [1]byte
+	g.tr.Read(b[:]) // blocks until the peer speaks or the transport is closed
+	g.done = true
+	ctx.HandleActive()
+}
+
 type obs struct {
 	f                    *mock.Factory
 	bs                   netty.Bootstrap
 	holder               netty.ChannelHolder
 	apps                 []*app
+	greets               []*greet
 	cbErrs               map[int][]error // listener index -> callback errors
 	listenerClosedByUser map[int]bool
 	connectErr           []error
@@ -61,6 +79,11 @@ type plan struct {
 	LClose    bool // a goroutine calls Listener.Close on listener 0
 	Relisten  bool // after LClose, the same url is listened on again
 	EarlyShut bool // Shutdown is issued by the main goroutine right after the Async calls (before anything else)
+	// Handshake: the initializer AddFirst()s a handler that holds the active event back until the peer
+	// speaks (a connection that stays "between accept and activation" until Shutdown ends it)
+	Handshake bool
+	// ParentCancel: the bootstrap is built WithContext(parent) and a goroutine cancels parent
+	ParentCancel bool
 }
 
 func (p plan) String() string {
@@ -74,6 +97,12 @@ func (p plan) String() string {
 	if p.EarlyShut {
 		s += " shutdown-right-after-Async"
 	}
+	if p.Handshake {
+		s += " +handshake-handler-first"
+	}
+	if p.ParentCancel {
+		s += " +parent-context-cancelled"
+	}
 	return s
 }
 
@@ -84,7 +113,9 @@ func scenario(p plan, bound int) *explore.Scenario {
 		Cache:  true,
 		Shards: 4,
 		Cfg:    vsched.Config{MaxSteps: 8000},
-		Init:   func() any { return &obs{cbErrs: map[int][]error{}, listenerClosedByUser: map[int]bool{}} },
+		// (handshake plans judge the scheduler's verdict themselves, see Check)
+		AllowAbnormal: p.Handshake,
+		Init:          func() any { return &obs{cbErrs: map[int][]error{}, listenerClosedByUser: map[int]bool{}} },
 		Body: func(v any) {
 			o := v.(*obs)
 			o.f = &mock.Factory{}
@@ -93,8 +124,15 @@ func scenario(p plan, bound int) *explore.Scenario {
 				a := &app{o: o, id: ch.ID(), tr: ch.Transport().(*mock.Transport)}
 				o.apps = append(o.apps, a)
 				ch.Pipeline().AddLast(a)
+				if p.Handshake {
+					g := &greet{tr: a.tr}
+					o.greets = append(o.greets, g)
+					ch.Pipeline().AddFirst(g)
+				}
 			}
+			parent, cancelParent := vcontext.WithCancel(context.Background())
 			o.bs = netty.NewBootstrap(
+				netty.WithContext(parent),
 				netty.WithTransport(o.f),
 				netty.WithChannelHolder(o.holder),
 				netty.WithChildInitializer(mk),
@@ -113,6 +151,9 @@ func scenario(p plan, bound int) *explore.Scenario {
 				shut()
 			} else {
 				ths = append(ths, vsched.Go("shutdown", shut))
+			}
+			if p.ParentCancel {
+				ths = append(ths, vsched.Go("parent", cancelParent))
 			}
 			if p.Inbound > 0 && p.Listeners > 0 {
 				ths = append(ths, vsched.GoDaemon("peers", func() {
@@ -174,7 +215,29 @@ func scenario(p plan, bound int) *explore.Scenario {
 			}
 			ctxs := " state at quiescence: " + b.String() + fmt.Sprintf("callbacks=%v", o.cbErrs)
 			if ab := x.Abnormal(); ab != "" && !strings.HasPrefix(ab, "deadlock") {
-				return nil
+				if p.Handshake {
+					add("sched/"+strings.SplitN(ab, "[", 2)[0], "scheduler verdict: "+ab+";"+ctxs)
+				}
+				return fs
+			}
+			if p.Handshake && o.shutdownDone {
+				// A connection whose read goroutine reaches the holder's HandleActive only after Shutdown
+				// has swept the holder is registered too late; the handshake handler behind the holder then
+				// waits for the peer with nobody left to close the channel. Everything else that is wrong
+				// in such an execution (stuck accept loop, leaked connection, deadlock verdict) follows from it.
+				stuck := 0
+				for _, g := range o.greets {
+					if g.entered && !g.done {
+						stuck++
+					}
+				}
+				if stuck > 0 && hlib.HolderSize(o.holder) == stuck {
+					add("setup-channel-left-open/registered-after-holder-sweep", fmt.Sprintf("%d channel(s) registered in the holder after Shutdown had closed its members are still waiting in a handshake handler: never closed without action of the peer;%s", stuck, ctxs))
+					return fs
+				}
+				if ab := x.Abnormal(); ab != "" {
+					add("sched/"+strings.SplitN(ab, "[", 2)[0], "scheduler verdict: "+ab+";"+ctxs)
+				}
 			}
 			if !o.shutdownDone {
 				add("shutdown-never-returned", "Shutdown did not return;"+ctxs)
@@ -264,6 +327,10 @@ func build(tier string) []*explore.Scenario {
 		{Listeners: 1, LClose: true},
 		{Listeners: 1, LClose: true, Relisten: true},
 		{Listeners: 2, Inbound: 1, EarlyShut: true},
+		{Listeners: 1, Inbound: 1, Handshake: true},
+		{Connects: 1, Handshake: true},
+		{Listeners: 1, Inbound: 1, ParentCancel: true},
+		{Listeners: 1, Connects: 1, ParentCancel: true},
 	}
 	var scs []*explore.Scenario
 	for _, p := range plans {
